@@ -100,6 +100,7 @@ func (e *c07Env) exec(idx int, sc *c07Sc) (st c07Status, okey string) {
 		}
 		return c07Hang, "hang"
 	}
+	atomic.StoreInt32(&x.callReturned, 1)
 	x.releaseAll()
 	okey = x.key(o)
 	m.Count("outcome_"+c07CountKey(okey), 1)
@@ -227,6 +228,16 @@ func (e *c07Env) exec(idx int, sc *c07Sc) (st c07Status, okey string) {
 	// ---- exactly-once / at-most-once / worker bound
 	x.mu.Lock()
 	defer x.mu.Unlock()
+	if sc.Endless > 0 {
+		m.Count("items_offered_after_context_done", x.offeredAfterCtx)
+		m.Count("items_mapped_after_context_done", x.mappedAfterCtx)
+		m.Max("max_items_mapped_after_context_done_in_one_call", x.mappedAfterCtx)
+		if x.mappedAfterCtx > int64(sc.Endless)/4 {
+			m.Violate("C07:ctx-ignored:still-mapping-after-context-done:"+sc.Entry, x.desc(),
+				"%s: the context cancellation completed, the generator went on offering items and %d of the %d items offered afterwards were still passed to the mapper before the call ended (%s); a done context has to make the call return, not run on until the generator is exhausted", sc.Entry, x.mappedAfterCtx, x.offeredAfterCtx, okey)
+			return c07Viol, okey
+		}
+	}
 	clean := len(terms) == 0
 	var mapped, written, reduced int64
 	if len(x.badItems) > 0 {
